@@ -41,11 +41,11 @@ ENGINE = "direct"
 TECHNIQUE = "totality + output scan of prettify_message over all views; DNS view round trip against an independent RFC 1035 decoder"
 BUDGET = {"quick": (2000, 14), "thorough": (200_000, 200)}
 WORKERS = {"quick": 2, "thorough": 16}
-REQUIRED = ["render_total", "render_no_control", "dns_reencode", "dns_roundtrip_equal"]
+REQUIRED = ["render_total", "render_no_control", "dns_reencode", "dns_roundtrip_equal", "malformed_content_type"]
 RULE = (
     "case = (body generator among random/text/JSON/GraphQL/XML-HTML/CSS/JS/protobuf/gRPC/MQTT/multipart/urlencoded/PNG-GIF-JPEG-ICO/"
     "zip/msgpack/socket.io/HTTP3/WBXML/DNS, optional byte-level mutation, message wrapper http-req/http-resp/tcp/udp/ws/dns, "
-    "content-type matching/other/none, content-encoding, requested view = auto | matching | any registered | unknown); "
+    "content-type matching/other/none/malformed (valueless, empty or =-only parameters, unbalanced quotes, several slashes, non-ASCII, very long), content-encoding, requested view = auto | matching | any registered | unknown); "
     "distinct = distinct (generator kind, wrapper, requested-view class, view that rendered, outcome ok/error-text/raw-fallback, mutated) "
     "tuple, for DNS cases (wrapper, feature set of the message, outcome); every DNS message also carries 3-5 records drawn uniformly from all record types mitmproxy names, with well-formed short RDATA (per-type counters rrtype.*); non-trivial = non-empty body that reached a view's prettify"
 )
@@ -98,6 +98,7 @@ def wrap(r, body, ct, kind):
             # a malformed value, standalone or appended as parameters to the matching type
             mal = r.choice(MALFORMED_CTYPES)
             ct = mal if (ct is None or r.random() < 0.5) else ct.split(";")[0] + ";" + mal.partition(";")[2]
+            f.metadata["vf_malformed_ct"] = True
         elif x < 0.92:
             ct = r.choice(ALL_CTYPES)
         else:
@@ -456,6 +457,9 @@ def run(ctx):
             else:
                 view, vclass = r.choice(["nonexistent", "", "AUTO", "Raw"]), "unknown-name"
             what = {"kind": kind, "wrapper": wk, "view": view, "content_type": m.headers.get("content-type") if hasattr(m, "headers") else None, "body": body[:400], "mutated": mutated}
+            malct = bool(f.metadata.get("vf_malformed_ct"))
+            if malct:
+                ctx.count("malformed_content_type")
             res = render(ctx, m, f, view, what)
             if res is None:
                 outcome, by = "violation", None
@@ -468,4 +472,4 @@ def run(ctx):
                 else:
                     outcome = "ok"
                 ctx.seen("rendered_by", f"{by}:{outcome}")
-            ctx.case((kind, wk, vclass, by, outcome, mutated), nontrivial=len(body) > 0, sample={**what, "text": short(res.text, 200) if res else None})
+            ctx.case((kind, wk, vclass, by, outcome, mutated, malct), nontrivial=len(body) > 0, sample={**what, "text": short(res.text, 200) if res else None})
